@@ -421,7 +421,10 @@ func RunCase(c Case) (res Result) {
 		}
 		defer func() { verifhook.Hook = nil; pickVictim = nil }()
 	}
-	for i := 0; i < n; i++ {
+	started := time.Now()
+	for i := 0; i < n || (c.Repeat > 1 && i < 400000 && time.Since(started) < 6*time.Second); i++ {
+		// (a schedule-dependent case whose runs are cheap is repeated beyond Repeat for up to six seconds: windows of a
+		// few instructions without a yield point inside need tens of thousands of attempts)
 		if pickVictim != nil {
 			pickVictim()
 		}
